@@ -829,22 +829,13 @@ def check_mechanisms(chk, idx, an=None):
             if isinstance(n, ast.Call) and isinstance(n.func, ast.Name) and n.func.id == 'CurrencyUnitValue']
     if not prod:
         raise AnalysisError('BaseCurrencyParser: no CurrencyUnitValue producer found')
-    for n in prod:
-        if len(n.args) != 3 or not isinstance(n.args[2], ast.Name) or n.args[2].id != 'main_unit_iso_code':
-            raise AnalysisError('BaseCurrencyParser: CurrencyUnitValue producer with an iso argument other than main_unit_iso_code')
-    iso_srcs = [a for m in c.methods.values() for a in ast.walk(m) if isinstance(a, ast.Assign)
-                and any(isinstance(t, ast.Name) and t.id == 'main_unit_iso_code' for t in a.targets)]
-    for a in iso_srcs:
-        sv = _src(a.value)
-        if not (sv in ("''", '""') or 'self.config.currency_name_to_iso_code_map.get(' in sv):
-            raise AnalysisError('BaseCurrencyParser: main_unit_iso_code assigned from %s' % sv[:80])
     others = [k.qual for k in idx.all_classes() if k.mod.name.startswith(NWU) and k is not c
               for m in k.methods.values() for n in ast.walk(m)
               if isinstance(n, ast.Call) and isinstance(n.func, ast.Name) and n.func.id == 'CurrencyUnitValue']
     if others:
         raise AnalysisError('CurrencyUnitValue is produced outside BaseCurrencyParser: %s' % sorted(set(others)))
-    chk.ok(R, c.mod.path, 'BaseCurrencyParser', 'isoCurrency is only ever currency_name_to_iso_code_map.get(unit name) '
-           '(%d producers, %d assignments)' % (len(prod), len(iso_srcs)), fn.lineno)
+    chk.ok(R, c.mod.path, 'BaseCurrencyParser', 'CurrencyUnitValue is produced only inside BaseCurrencyParser (%d producers); '
+           'which code it carries is decided by C05.iso-value' % len(prod), fn.lineno)
     # -- the model lower-cases term-sensitively before extraction
     c, fn = _own(idx, NWU + '.models.AbstractNumberWithUnitModel', 'parse')
     chk.consulted(c.mod.path)
@@ -1001,7 +992,9 @@ def analyse_merge(cls, fn):
                 d['others'].append(_src(e))
         return d
 
-    res = {'acc': acc, 'main_carried': sorted(main_carried),
+    iso_args = [cc.args[1] for cc in cr if len(cc.args) == 4]
+    iso_desc = [describe(a) for a in iso_args]
+    res = {'acc': acc, 'main_carried': sorted(main_carried), 'iso_args': iso_desc,
            'named_tests': ' '.join(_src(i.test) for i, f in named[0][2])}
     num, div = _split_div(named[0][1])
     res['named'] = describe(div)
@@ -1270,6 +1263,9 @@ def run(chk):
              floor=2, control=True)
     chk.rule('C05.format-once', "on BaseCurrencyParser.parse's single-amount path the emitted number is the unit parser's "
              'culture-formatted string, with culture_info.format() applied no further time', floor=3, control=True)
+    chk.rule('C05.iso-value', "the value a currency amount is emitted with follows CurrencyNameToIsoCodeMap[unit name]: real code -> "
+             'CurrencyUnitValue(iso), placeholder _X -> UnitValue, no code -> CurrencyUnitValue(None) (single path interpreted; '
+             'compound path by provenance of the ISO argument)', floor=4, control=True)
     chk.rule('C05.bind', 'add_dict_to_unit_map and the helpers it calls bind a table the way the table rules assume (unit name as '
              'is, value stripped and split on |, empty names/spellings skipped, first binding wins, insertion order) - interpreted '
              'on small table sequences', floor=1, control=True)
@@ -2030,6 +2026,36 @@ def rule_one_entity(ctx):
 
 # ---- the emitted value is the number parser's string, culture-formatted no further time (BaseCurrencyParser.parse) ----
 
+def iso_value_problem(has_iso_field, iso_out, iso_in):
+    """C05.iso-value detector: what the single-amount path must emit for a unit whose table code is iso_in
+    (None: unit not in CurrencyNameToIsoCodeMap; '_X': internal placeholder code)"""
+    if iso_in is not None and iso_in.startswith('_'):
+        if has_iso_field:
+            return 'a unit with the placeholder code %r comes out as CurrencyUnitValue with iso_currency %r (placeholder codes must ' \
+                   'never be emitted: UnitValue expected)' % (iso_in, iso_out)
+        return None
+    if not has_iso_field:
+        return 'a unit with table code %r comes out as UnitValue (no isoCurrency in the resolution)' % (iso_in,)
+    if iso_out != iso_in:
+        return 'a unit with table code %r comes out with iso_currency %r' % (iso_in, iso_out)
+    return None
+
+
+def iso_provenance_problem(d):
+    """compound path: description (analyse_merge.describe) of the ISO argument handed to __create_currency_result"""
+    if d['others']:
+        return 'may hold %s' % '; '.join(d['others'][:3])
+    if not d['lookups']:
+        return 'is never looked up in a table (%s)' % d['consts']
+    for slot, keys, text in d['lookups']:
+        if slot != 'currency_name_to_iso_code_map':
+            return 'is looked up in config.%s (%s)' % (slot, text)
+        badk = [k for k in keys if not k.endswith('.unit')]
+        if badk or not keys:
+            return 'is looked up under %s, not under the unit name' % (badk or text)
+    return None
+
+
 def format_tag_problem(number, sent):
     """number: what the currency parser emits for the unit parser's number `sent` when culture_info.format tags its argument"""
     if number == sent:
@@ -2042,6 +2068,17 @@ def format_tag_problem(number, sent):
 def rule_format_once(ctx):
     from ..ointerp import Interp, FuncRef, Obj, Native, PyExc, native
     chk, idx = ctx['chk'], ctx['idx']
+    # compound path: the ISO argument of every __create_currency_result call in __merge_compound_unit
+    mc = idx.cls(NWU + '.parsers.BaseCurrencyParser')
+    for n_, d_ in enumerate(ctx['mech']['merge']['iso_args']):
+        pr = iso_provenance_problem(d_)
+        cons = 'BaseCurrencyParser.__merge_compound_unit: ISO code handed to __create_currency_result (#%d)' % n_
+        det = 'arg=%s lookups=%s others=%s' % (d_['text'], [(sl, k) for sl, k, _ in d_['lookups']], d_['others'])
+        if pr:
+            chk.bad('C05.iso-value', mc.mod.path, cons, det, 'the ISO code `%s` of a compound amount %s; it must be '
+                    'config.currency_name_to_iso_code_map[unit name of the main unit]' % (d_['text'], pr), mc.methods['__merge_compound_unit'].lineno)
+        else:
+            chk.ok('C05.iso-value', mc.mod.path, cons, det, mc.methods['__merge_compound_unit'].lineno)
     c = idx.cls(NWU + '.parsers.BaseCurrencyParser')
     fn = c.methods.get('parse')
     if fn is None:
@@ -2064,6 +2101,7 @@ def rule_format_once(ctx):
         isomap = {}
         if iso is not None:
             isomap[unit] = (unit, iso)
+        isomap[SENT] = (SENT, 'NUM')          # a lookup by the number instead of the unit name shows up as code NUM
 
         def inner_parse(it2, a, k, unit=unit):
             return Obj(pr_cls, {'start': 0, 'length': 8, 'text': '2,5 unit', 'type': cur.value, 'data': None, 'meta_data': None,
@@ -2082,7 +2120,18 @@ def rule_format_once(ctx):
             uname = it.getattr(val, 'unit', None, c)
         except PyExc as ex:
             chk.bad('C05.format-once', c.mod.path, construct, 'raises', 'interpreting the single-amount path raises %s' % ex, fn.lineno)
+            chk.bad('C05.iso-value', c.mod.path, construct, 'raises', 'interpreting the single-amount path raises %s' % ex, fn.lineno)
             continue
+        has_iso = isinstance(val, Obj) and 'iso_currency' in val.attrs
+        iprob = iso_value_problem(has_iso, val.attrs.get('iso_currency') if has_iso else None, iso)
+        iconstruct = 'BaseCurrencyParser.parse (single amount, %s): emitted value' % what
+        idetail = 'table code %r -> %s' % (iso, ('CurrencyUnitValue iso_currency=%r' % (val.attrs.get('iso_currency'),)) if has_iso else 'UnitValue')
+        if iprob:
+            chk.bad('C05.iso-value', c.mod.path, iconstruct, idetail,
+                    "%s. isoCurrency must be CurrencyNameToIsoCodeMap[unit name]; internal codes starting with '_' are never "
+                    'emitted' % iprob, fn.lineno)
+        else:
+            chk.ok('C05.iso-value', c.mod.path, iconstruct, idetail, fn.lineno)
         prob = format_tag_problem(number, SENT)
         if prob is None and uname != unit:
             prob = 'the unit %r comes out as %r' % (unit, uname)
@@ -2498,6 +2547,9 @@ def controls(chk, mech):
                 and bool(fit_binding(_obs(dict(PINNED_HYP, value_strip=False)))[1]))
     chk.control('C05.one-entity', one_entity_problem('1 $', [(0, 2, '1 $'), (2, 2, '$')], [(0, 2)]) is not None
                 and one_entity_problem('1 $', [(0, 2, '1 $')], [(0, 2)]) is None and one_entity_problem('1$', [], [(0, 1)]) is not None)
+    chk.control('C05.iso-value', iso_value_problem(True, '_P', '_P') is not None and iso_value_problem(True, 'NUM', 'EUR') is not None
+                and iso_value_problem(False, None, 'EUR') is not None and iso_value_problem(True, 'EUR', 'EUR') is None
+                and iso_value_problem(False, None, '_P') is None and iso_value_problem(True, None, None) is None)
     chk.control('C05.format-once', format_tag_problem('fmt(2,5)', '2,5') is not None and format_tag_problem('2,5', '2,5') is None)
     chk.control('C05.blank', parser_lookup(um, ' pinta', '')[0] is None)
     pre = mech['preprocess']
